@@ -47,7 +47,8 @@ pub fn profile3(prop: &str) -> Profile3 {
         "C08" => base,
         "C10" => Profile3 { monitors: INVISIBLE, toggle: 0.08, start_halted: 0.1, ..base },
         "C11" => Profile3 { monitors: RECORDS, asym: true, toggle: 0.02, ..base },
-        "C14" => Profile3 { force_market: true, market_share: 1.0, ..base },
+        // per-asset environment-level queries too: cached level-2 snapshot and recorded histories of every asset
+        "C14" => Profile3 { monitors: BELIEF | SHADOW | RECORDS | INVISIBLE, force_market: true, market_share: 1.0, asym: true, ..base },
         "C05" => Profile3 { monitors: BELIEF | TIE_CLASSIFY, overflow: true, always_steer: true, market_share: 0.25, toggle: 0.0, start_halted: 0.0, max_steps: 12, ..base },
         "C12" => Profile3 { monitors: GRID | INVISIBLE, offgrid: 0.25, drain: false, ..base },
         "C13" => Profile3 { monitors: BELIEF | HALT, toggle: 0.35, start_halted: 0.4, ..base },
